@@ -403,6 +403,13 @@ def step (st : St) (cmd : String) (impl : String) : St × Verdict :=
     DBSpec.staleExplains sp1.hist a1 (DBSpec.parsePairs (if op == "get" then "[" ++ resPayload impl ++ "]" else resPayload impl))
       (DBSpec.parsePairs (if op == "get" then "[" ++ resPayload want ++ "]" else resPayload want))
       (DBSpec.parsePairs (if op == "get" then "[" ++ resPayload vm.model ++ "]" else resPayload vm.model))
+  -- the converse: the implementation's answer is what the spec demands and the sequential model (which
+  -- has to place the unlocked Merge somewhere in the lock-acquisition order) differs: the spec is the judge
+  let modelOff := sp1.concMerge && specOk == some true && vm.model != impl &&
+    (op == "get" || op == "getall" || op == "range" || op == "prefix" || op == "psearch")
+  if modelOff then
+    ({ st1 with sp := sp2 }, { vm with model := impl, specOk := specOk, spec := want, tag := tag })
+  else
   if staleRead || (sp1.concMerge && op == "obs") then
     ({ st1 with sp := sp2 }, { vm with model := impl, specOk := if op == "obs" then none else specOk, spec := want, tag := "finding:D-MERGE-NOLOCK" })
   else
